@@ -535,6 +535,35 @@ pub fn run(sink: &mut Sink, rng: &mut Rng, thorough: bool, dir: &Path) {
     let _ = fs::remove_file(&outp);
     expect_error(sink, &format!("{}: convert ascii '{}'", what, doc), &moc(&["convert", "-f", "ascii", "-t", ty, p.to_str().unwrap(), "fits", op_], None), Some(&outp));
   }
+  // ISO timestamps: every second of a day is a whole number of microseconds (the time of day must not go through a
+  // fraction of day in floating point); 2020-01-01T00:00:00 = JD 2458849.5 = 212444596800000000 us since JD 0
+  {
+    let day0: u64 = 212_444_596_800_000_000;
+    let secs: Vec<u64> = vec![0, 1, 59, 3599, 8850, 12345, 30000, 43199, 43200, 43201, 45678, 50000, 61234, 77777, 86399];
+    for (depth, tt) in [(61u8, "isosimple"), (56, "isosimple"), (61, "isorfc"), (58, "isorfc")] {
+      let input: String = secs.iter().map(|x| format!("2020-01-01T{:02}:{:02}:{:02}{}\n", x / 3600, (x / 60) % 60, x % 60, if tt == "isorfc" { "Z" } else { "" })).collect();
+      let outp = dir.join("from_iso.fits");
+      let _ = fs::remove_file(&outp);
+      let o = moc(&["from", "timestamp", "--time-type", tt, &depth.to_string(), "-", "fits", outp.to_str().unwrap()], Some(&input));
+      let ans = if o.code == 0 { decode(&outp, "fits", "time") } else { format!("exit {} {}", o.code, o.err.lines().next().unwrap_or("")) };
+      sink.count("from-timestamp:iso");
+      let l = secs.iter().map(|x| (day0 + x * 1_000_000).to_string()).collect::<Vec<_>>().join(",");
+      sink.emit(&format!("cli_from_usec {} {}", depth, l), &ans, true);
+    }
+  }
+  // instants that are not in the time domain [0, 2^62) us: no cell exists for them; the tool must not write one
+  for (tt, val) in [("usec", "4611686018427387904"), ("usec", "18446744073709551615"), ("jd", "nan"), ("jd", "-5"), ("jd", "1e10"), ("jd", "inf"), ("mjd", "-2400001")] {
+    let outp = dir.join("from_ood.ascii");
+    let _ = fs::remove_file(&outp);
+    let o = moc(&["from", "timestamp", "--time-type", tt, "61", "-", "ascii", outp.to_str().unwrap()], Some(&format!("{}\n", val)));
+    sink.count("from-timestamp:out-of-domain");
+    let txt = fs::read_to_string(&outp).unwrap_or_default();
+    if o.code == 101 || o.code < 0 {
+      sink.impl_failures.push(format!("cli-crash-on-invalid-input: from timestamp {} '{}' -> exit {} {}", tt, val, o.code, o.err.lines().next().unwrap_or("")));
+    } else if o.code == 0 && txt.split_whitespace().any(|tok| tok.split('/').nth(1).map(|x| !x.is_empty()).unwrap_or(false) || (!tok.contains('/') && !tok.is_empty())) {
+      sink.impl_failures.push(format!("cli-out-of-domain-instant: from timestamp {} '{}' (no such instant in [0, 2^62) us) wrote the MOC {:?}", tt, val, txt.trim()));
+    }
+  }
   // an empty list of regions gives the empty MOC of the requested depth, whatever the variant
   {
     let p = dir.join("empty.csv");
